@@ -4,6 +4,16 @@ HERE = os.path.dirname(os.path.dirname(os.path.abspath(__file__)))
 BASE = json.load(open("/root/.vp/BASELINE.json"))["cmd"]
 
 CHECKS = {
+ "C15": dict(
+   technique="bounded exhaustive enumeration of simulations (bandit lists x data sets x test_size x split mode x every batch size x is_quick) with a differential oracle: replay of each run through the public API on copies taken before the Simulator was built",
+   text="Every policy combination singly and every ordered pair of Radius/KNearest bandits with different metrics is simulated over the full product of the parameter alphabet (including every batch size 0..|test|); each run is replayed through fit/predict/predict_expectations/partial_fit with the recomputed split and must report the same predictions (and expectations for deterministic policies).",
+   note="6-10 rows on integer grids with boundary rows; train_test_split trusted; randomised policies compared on predictions only",
+   ref="DESIGN.md section 7 (C15)"),
+ "C16": dict(
+   technique="bounded exhaustive enumeration of simulations; every reported quantity recomputed independently from the raw data (split, per-arm statistics, evaluation rule incl. neighbourhood statistics by integer distance arithmetic)",
+   text="For each bandit kind, data set with arms absent from train/test, test size, split mode, every batch size and is_quick, the simulator's split, statistics, prediction count and min/avg/max analyses are compared with a from-scratch recomputation of the documented rules.",
+   note="LSH neighbourhood statistics are taken as reported; KNearest rows with tied k-th distance use the reported neighbourhood (counted)",
+   ref="DESIGN.md section 7 (C16)"),
  "C05": dict(
    technique="exhaustive enumeration of partitions, compositions and completion orders through a joblib model driven by the explorer; stateless preemption-bounded schedule exploration (sys.monitoring INSTRUCTION-level scheduler, real threads, one running at a time) of the shared-memory regions; conformance runs against real joblib",
    text="(1) _partition_contexts is checked for every n<=64, n_jobs and cpu count; (2) for every neighbourhood combination, every query batch up to the bound, every composition into contiguous chunks is run through the library's own _parallel_predict on isolated pickled copies and on the shared object in every completion order and must give the n_jobs=1 result; (3) per-arm fit tasks, LSH insert tasks and threading-backend prediction tasks are executed under every schedule with at most B preemptions at attribute/subscript/call granularity and must reproduce the sequential model and outputs, plus a free-running recorder pass checking disjoint write sets; (4) the joblib model is compared with real joblib backends.",
